@@ -243,6 +243,14 @@ def run(rep, tier, seed, replay=None, proof_ok=True):
     try:
         for k, vs in sorted(by.items()):
             t0, (st0, p0, d0, again) = vs['base']
+            if st0.startswith('tree-invariant:'):
+                # the worker processes parse many texts, some of them more than once: a parse whose tree no longer has the
+                # shape every first parse has (parent links, node classes) depends on what the process did before
+                if shown < 3:
+                    shown += 1
+                    rep.violation({'kind': 'counterexample', 'what': 'a parse in a process that has parsed other (or the same) text before '
+                                   'yields a malformed tree: ' + st0, 'input': t0})
+                continue
             if st0 != 'ok':
                 rep.bump('base_' + st0)
                 continue
@@ -317,9 +325,17 @@ def run(rep, tier, seed, replay=None, proof_ok=True):
 
 def _worker(job):
     name, text = job
-    st, p, d = impl_proj(text)
+    try:
+        st, p, d = impl_proj(text)
+    except Exception as e:
+        return 'tree-invariant:%s: %s' % (type(e).__name__, str(e)[:200]), None, None, None
     again = None
     if name == 'base' and st == 'ok':
-        st2, p2, _ = impl_proj(text)
-        again = sexp.dumps(p2) if st2 == 'ok' else st2
+        try:
+            st2, p2, _ = impl_proj(text)
+            again = sexp.dumps(p2) if st2 == 'ok' else st2
+        except Exception as e:
+            # the FIRST parse of this text went through the fail-closed dump; a second parse of the same text that no
+            # longer does (shared nodes, stale parent links) is the repetition experiment failing, with this text as input
+            again = 'second parse of the same text: %s: %s' % (type(e).__name__, str(e)[:200])
     return st, p, d, again
